@@ -123,7 +123,14 @@ CHECKS["C09"] = dict(
     "the F18 counterexample, over M1; same correspondence as C01 plus look-ahead/in-flight/re-entrancy oracles and a native-thread "
     "probe with an input iterator that detects a second thread entering it. M1L (all interleavings at lock-boundary granularity): "
     "mutex, lock_owner_iff, acquire_needs_free_lock, pulls_only_by_lock_owner (never from two threads at once), "
-    "no_pull_after_abort_observed.",
+    "no_pull_after_abort_observed. pre_dispatch resolution (lean/JoblibModel/EvalExpr.lean: the ast node kinds, eval_ over any "
+    "interpretation of the 8 operator functions, exact int / binary64 float arithmetic, the textual n_jobs substitution, int() and "
+    "islice's range check): eval_arithmetic_only (a value implies only constants, the 7 operators and unary minus were evaluated), "
+    "eval_rejects_cleanly_partial (+ the counterexample (1/0)+foo: ZeroDivisionError leaves eval_expr), eval_exception_classes, "
+    "eval_sound (integer fragment, floor semantics), resolve_amount_fixed, lookahead_bound_user / _default (the bound as a function of "
+    "the user's pre_dispatch text, n_jobs and the batch size), resolve_numbers, resolve_zero_negative_witnesses; tied by exact-value "
+    "correspondence on generated and malformed expressions (call-event oracle: nothing but eval_, isinstance and the operator "
+    "functions runs) and end to end through Parallel on the controllable backend.",
     note="M1 granularity: completion callbacks are atomic and delivered at hook points of the caller (configure, compute_batch_size, sleep, consumer pauses) - exactly the schedules harness/ctl.py executes on the real Parallel on one thread (event-log equality). Interleavings at lock-boundary / backend-call / unlocked-shared-access granularity with any number of concurrent callback threads are covered by PROOF on the second model M1L (lean/JoblibModel/ParallelLock.lean, theorems M1L.*; scope: one call on a fresh object, ordered modes, no timeout) and tied to the code by step-log equality of forced real-thread schedules (instrumented lock, controllable backend, descriptor-instrumented shared attributes; no line numbers). What remains exploration judged by oracles only is finer than a single attribute access (bytecode level: instr_sweep), mid-callback observations of the wait predicate, close during a callback's pull, native threading/multiprocessing runs, and at M1L granularity: timeouts, generator_unordered, call sequences; termination is proved for the drain schedule (completions, then callbacks, then the caller; quiescent_termination with an explicit bound), not for arbitrary fair schedules. Modelled not verified: backend contract (each batch executed at most once, callback at most once), RLock, islice, Queue/deque, pickling to workers." + " The unrestricted look-ahead bound is false of the code (F18, known finding); F29 known.",
     technique="Lean 4 proof (size invariants of the transition system) + event-log correspondence + re-entrancy probe",
     ref="6/C09, 13.2",
